@@ -154,6 +154,49 @@ func main() {
 		o.Set("cmd.proposeScanTrimmed", "raftstore/store/command_service.go:ProposeCommand", fmt.Sprint(trimmed), pc != nil, "true")
 	}
 
+	{
+		// trimScanResponse: inside the loop over the sub-requests every guard that skips a
+		// sub-response must `continue`; only the index bound may end the loop
+		ts := cs.Func("trimScanResponse")
+		each, okShape := true, ts != nil
+		if ts != nil {
+			var loop *ast.RangeStmt
+			for _, st := range ts.Body.List {
+				if rs, ok := st.(*ast.RangeStmt); ok {
+					loop = rs
+				}
+			}
+			if loop == nil {
+				okShape = false
+			} else {
+				guards := 0
+				for _, st := range loop.Body.List {
+					is, ok := st.(*ast.IfStmt)
+					if !ok || len(is.Body.List) != 1 || is.Else != nil {
+						continue
+					}
+					cond := cs.Src(is.Cond)
+					switch b := is.Body.List[0].(type) {
+					case *ast.BranchStmt:
+						if b.Tok.String() != "continue" {
+							each = false
+						}
+						guards++
+					case *ast.ReturnStmt:
+						if cond != "i >= len(resp.Responses)" {
+							each = false
+						}
+						guards++
+					}
+				}
+				if guards < 2 || !cs.HasStmt(loop.Body, "if keyInRange(meta, kv.Key) { kept = append(kept, kv) }") || !cs.HasStmt(loop.Body, "scan.Kvs = kept") {
+					okShape = false
+				}
+			}
+		}
+		o.Set("cmd.trimEach", "raftstore/store/command_service.go:trimScanResponse", fmt.Sprint(each), okShape, "true")
+	}
+
 	// ---------------------------------------------------------------- admin_service.go / region_manager.go (C24)
 	as := o.Load("raftstore/store/admin_service.go")
 	sr := as.Func("Store.SplitRegion")
@@ -238,6 +281,72 @@ func main() {
 		o.Set("cat.transitions", "raftstore/store/region_manager.go:validRegionStateTransition", strings.Join(pairs, ","), okShape, "0-1,1-2,1-3,2-3")
 	}
 
+	// ------------------------------------------------ catalog persistence (C24: reload after a restart)
+	{
+		// index of the first top-level statement of fn whose source contains sub
+		topIdx := func(f *elib.File, fn *ast.FuncDecl, sub string) int {
+			if fn == nil {
+				return -1
+			}
+			for i, st := range fn.Body.List {
+				if strings.Contains(f.Src(st), sub) {
+					return i
+				}
+			}
+			return -1
+		}
+		up, rmv := rm.Func("regionManager.updateRegion"), rm.Func("regionManager.removeRegion")
+		const logUpd = "if rm.manifest != nil { if err := rm.manifest.LogRegionUpdate(metaCopy); err != nil { return err } }"
+		const logDel = "if rm.manifest != nil { if err := rm.manifest.LogRegionDelete(regionID); err != nil { return err } }"
+		okShape := up != nil && rmv != nil && rm.HasStmt(up.Body, logUpd) && rm.HasStmt(rmv.Body, logDel)
+		lu, mu := topIdx(rm, up, "rm.manifest.LogRegionUpdate("), topIdx(rm, up, "rm.metaByID[metaCopy.ID] =")
+		ld, md := topIdx(rm, rmv, "rm.manifest.LogRegionDelete("), topIdx(rm, rmv, "delete(rm.metaByID, regionID)")
+		if lu < 0 || mu < 0 || ld < 0 || md < 0 {
+			okShape = false
+		}
+		o.Set("cat.persistFirst", "raftstore/store/region_manager.go:updateRegion/removeRegion", fmt.Sprint(lu < mu && ld < md), okShape, "true")
+		// every writer of the in-memory map
+		var writers []string
+		for _, d := range rm.AST.Decls {
+			if fd, ok := d.(*ast.FuncDecl); ok && fd.Body != nil {
+				w := false
+				ast.Inspect(fd.Body, func(x ast.Node) bool {
+					switch v := x.(type) {
+					case *ast.AssignStmt:
+						for _, l := range v.Lhs {
+							if strings.Contains(rm.Src(l), "metaByID") {
+								w = true
+							}
+						}
+					case *ast.CallExpr:
+						if id, ok := v.Fun.(*ast.Ident); ok && id.Name == "delete" && len(v.Args) > 0 && strings.Contains(rm.Src(v.Args[0]), "metaByID") {
+							w = true
+						}
+					}
+					return true
+				})
+				if w {
+					writers = append(writers, fd.Name.Name)
+				}
+			}
+		}
+		sort.Strings(writers)
+		o.Set("cat.memWriters", "raftstore/store/region_manager.go", strings.Join(writers, ","), true, "loadSnapshot,removeRegion,updateRegion")
+
+		mm := o.Load("manifest/manager.go")
+		ws, ap := mm.Func("Manager.writeSnapshot"), mm.Func("Manager.apply")
+		all := ws != nil &&
+			mm.HasStmt(ws.Body, "for id := range version.Regions { regionIDs = append(regionIDs, id) }") &&
+			mm.HasStmt(ws.Body, "for _, id := range regionIDs { meta := CloneRegionMeta(version.Regions[id]) edit := RegionEdit{Meta: meta} if err := writeEdit(w, Edit{Type: EditRegion, Region: &edit}); err != nil { return err } }")
+		okWS := ws != nil && strings.Contains(mm.Src(ws.Body), "version.Regions")
+		o.Set("man.snapshotAllRegions", "manifest/manager.go:writeSnapshot", fmt.Sprint(all), okWS, "true")
+		okAp := ap != nil && mm.HasStmt(ap.Body, "if edit.Region.Delete { delete(m.version.Regions, edit.Region.Meta.ID) } else { meta := edit.Region.Meta meta.StartKey = append([]byte(nil), meta.StartKey...) meta.EndKey = append([]byte(nil), meta.EndKey...) meta.Peers = append([]PeerMeta(nil), meta.Peers...) m.version.Regions[meta.ID] = meta }")
+		o.Set("man.regionReplay", "manifest/manager.go:apply", "put-or-delete", okAp, "put-or-delete")
+		ls := rm.Func("regionManager.loadSnapshot")
+		okLs := ls != nil && rm.HasStmt(ls.Body, "for id, meta := range snapshot { rm.metaByID[id] = manifest.CloneRegionMeta(meta) }")
+		o.Set("cat.loadSnapshot", "raftstore/store/region_manager.go:loadSnapshot", "copy-all", okLs, "copy-all")
+	}
+
 	// ---------------------------------------------------------------- config/config.go (C38)
 	cf := o.Load("config/config.go")
 	va := cf.Func("File.Validate")
@@ -276,6 +385,7 @@ func main() {
 import NoKVModel.Region.PD
 import NoKVModel.Region.Cmd
 import NoKVModel.Region.Catalog
+import NoKVModel.Region.Persist
 import NoKVModel.Region.Topology
 
 namespace NoKV.Generated.Region
@@ -286,11 +396,14 @@ def pdCfg : PDCfg :=
 
 def cmdCfg : CmdCfg :=
   { keyStartOp := .%s, keyEndOp := .%s, uncheckedKinds := [%s], unknownRejected := %s,
-    epochBothFields := %s, proposeScanTrimmed := %s }
+    epochBothFields := %s, proposeScanTrimmed := %s, trimEach := %s }
 
 def catCfg : CatCfg :=
   { mergeRule := .%s, transitions := [%s], splitStartOp := .%s, splitEndOp := .%s,
     splitBumpsVersion := %s, mergeBumpsVersion := %s }
+
+def persistCfg : PCfg :=
+  { persistFirst := %s, snapshotAll := %s }
 
 def topoCfg : TopoCfg :=
   { chkTempl := %s, chkDockerTempl := %s, chkStoreZero := %s, chkStoreDup := %s, chkRegionZero := %s,
@@ -300,9 +413,10 @@ end NoKV.Generated.Region
 `,
 		f["pd.rejectsInverted"], f["pd.staleVerOp"], f["pd.staleConfOp"], f["pd.overlapOp"], f["pd.lookupEndOp"],
 		f["cmd.keyStartOp"], f["cmd.keyEndOp"], leanKinds(f["cmd.uncheckedKinds"]), f["cmd.unknownRejected"],
-		f["cmd.epochBothFields"], f["cmd.proposeScanTrimmed"],
+		f["cmd.epochBothFields"], f["cmd.proposeScanTrimmed"], f["cmd.trimEach"],
 		f["cat.mergeRule"], leanPairs(f["cat.transitions"]), f["cat.splitStartOp"], f["cat.splitEndOp"],
 		f["cat.splitBumpsVersion"], f["cat.mergeBumpsVersion"],
+		f["cat.persistFirst"], f["man.snapshotAllRegions"],
 		f["topo.chkTempl"], f["topo.chkDockerTempl"], f["topo.chkStoreZero"], f["topo.chkStoreDup"], f["topo.chkRegionZero"],
 		f["topo.chkLeaderKnown"], f["topo.chkPeerZero"], f["topo.chkPeerKnown"])
 	o.Write(*jsonOut, *leanOut, lean)
